@@ -176,6 +176,10 @@ func toCtyList(val reflect.Value, ety cty.Type, path cty.Path) (cty.Value, error
 		// for future appending to the path.
 		path = path[:len(path)-1]
 
+		if !cty.CanListVal(vals) {
+			// only possible for members that are themselves cty.Value of different types
+			return cty.NilVal, path.NewErrorf("all list elements must have the same type")
+		}
 		return cty.ListVal(vals), nil
 
 	default:
@@ -226,6 +230,10 @@ func toCtyMap(val reflect.Value, ety cty.Type, path cty.Path) (cty.Value, error)
 		// for future appending to the path.
 		path = path[:len(path)-1]
 
+		if !cty.CanMapVal(vals) {
+			// only possible for members that are themselves cty.Value of different types
+			return cty.NilVal, path.NewErrorf("all map elements must have the same type")
+		}
 		return cty.MapVal(vals), nil
 
 	default:
@@ -289,6 +297,10 @@ func toCtySet(val reflect.Value, ety cty.Type, path cty.Path) (cty.Value, error)
 
 	}
 
+	if !cty.CanSetVal(vals) {
+		// only possible for members that are themselves cty.Value of different types
+		return cty.NilVal, path.NewErrorf("all set elements must have the same type")
+	}
 	return cty.SetVal(vals), nil
 }
 
